@@ -69,6 +69,8 @@ fn main() {
         ("drive", "fixtures") => fixtures::drive(&args),
         ("replay", "biffcells") => isolate::run_replay(&args, props::biff::replay_cells),
         ("replay", "rk") => props::biff::replay_rk(&args),
+        ("replay", "ptg8") => isolate::run_replay(&args, props::ptg8::replay_ptg8),
+        ("replay", "lbl8") => isolate::run_replay(&args, props::ptg8::replay_lbl8),
         ("replay", "sst") => isolate::run_replay(&args, props::sst::replay),
         ("drive", "sst") => isolate::run_drive(&args, props::sst::drive),
         ("drive", "biffcells") => isolate::run_drive(&args, props::biff::drive_cells),
